@@ -44,13 +44,40 @@ fn main() {
         let (n, v) = match vlab::util::catch(|| c15::sweep_fmt(TKind::Model)) {
             Ok(r) => r,
             Err(p) => {
-                c.machinery_error(format!("fmt-write sweep: harness panic: {}", p));
-                (0, vec![])
+                if p.contains("LAB-LIVELOCK") {
+                    // More than 65536 transmissions go through the queue in this sweep: a wait
+                    // that never ends although the device has used the buffer is a verdict.
+                    (1, vec![("fmt-write-livelock".to_string(), format!("the console keeps waiting for a transmission the device has completed: {}", p))])
+                } else if vlab::util::is_driver_panic(&p) {
+                    (1, vec![("fmt-write-panic".to_string(), format!("the library panicked during the formatting sweep: {}", p))])
+                } else {
+                    c.machinery_error(format!("fmt-write sweep: harness panic: {}", p));
+                    (0, vec![])
+                }
             }
         };
         c.add_sweep("fmt-write: write_char for all 1112064 Unicode scalar values and formatted output with character arguments and non-ASCII fill", n, n, true, vlab::util::J::obj());
         for (k, d) in v {
             c.add_violation(vlab::engine::Violation::new("C15", k, d.clone()), "fmt-write", vlab::util::J::obj().set("kind", vlab::util::J::s("case")).set("case", vlab::util::J::s(d)), vec![]);
+        }
+    }
+    // A receive session of more than 65536 chunks (the ring indices wrap).
+    {
+        let chunks = if args.tier == vlab::engine::report::Tier::Quick { 70_000 } else { 200_000 };
+        let (n, v) = match vlab::util::catch(|| c15::run_linear_rx(TKind::Model, chunks)) {
+            Ok(r) => r,
+            Err(p) => {
+                if p.contains("LAB-LIVELOCK") || vlab::util::is_driver_panic(&p) {
+                    (1, vec![("linear-receive".to_string(), format!("long receive session: {}", p))])
+                } else {
+                    c.machinery_error(format!("linear receive run: harness panic: {}", p));
+                    (0, vec![])
+                }
+            }
+        };
+        c.add_sweep(&format!("linear-receive: one session of {} chunks of 1-3 bytes, every byte taken with recv(true)", chunks), n, 1, true, vlab::util::J::obj());
+        for (k, d) in v {
+            c.add_violation(vlab::engine::Violation::new("C15", k, d.clone()), "linear-receive", vlab::util::J::obj().set("kind", vlab::util::J::s("case")).set("case", vlab::util::J::s(d)), vec![]);
         }
     }
     c.finish();
